@@ -312,6 +312,8 @@ def run_case(ns, mon, case):
             if h1._grad is not None or h2._grad is not None:
                 bad("release:intermediate-kept", "a non-retained intermediate kept its gradient although nothing asked for it")
 
+    not_reusable = {}
+
     def exec_block(block, depth):
         for act in block:
             if act["t"] == "with":
@@ -326,17 +328,35 @@ def run_case(ns, mon, case):
                 fld = "grad" if kind == "no_grad" else "retain"
                 saved = model[fld]
                 trail.append(f"enter {kind}({act['src']})")
+                # (the with statement, spelled out: a context object that cannot be entered a second time - a generator-based one - is
+                #  replaced by a fresh one and counted; re-entering one object is not something the property promises)
+                if act["src"] != "fresh" and not_reusable.get(kind):
+                    ctx = cls()
                 try:
-                    with ctx:
-                        model[fld] = False if kind == "no_grad" else True
-                        counters["context_entries"] = counters.get("context_entries", 0) + 1
-                        probe_flags("inside " + kind)
-                        exec_block(act["body"], depth + 1)
-                        if act["raise"]:
-                            counters["exception_exits"] = counters.get("exception_exits", 0) + 1
-                            raise Boom()
-                except Boom:
-                    pass
+                    ctx.__enter__()
+                except Exception:
+                    if act["src"] == "fresh":
+                        raise
+                    not_reusable[kind] = True
+                    counters["context_object_not_reusable"] = counters.get("context_object_not_reusable", 0) + 1
+                    tm.gradient__, tm.retain_grads__ = model["grad"], model["retain"]
+                    ctx = cls()
+                    ctx.__enter__()
+                try:
+                    model[fld] = False if kind == "no_grad" else True
+                    counters["context_entries"] = counters.get("context_entries", 0) + 1
+                    probe_flags("inside " + kind)
+                    exec_block(act["body"], depth + 1)
+                    if act["raise"]:
+                        counters["exception_exits"] = counters.get("exception_exits", 0) + 1
+                        raise Boom()
+                except Boom as e_:
+                    try:
+                        ctx.__exit__(type(e_), e_, e_.__traceback__)
+                    except Boom:
+                        pass
+                else:
+                    ctx.__exit__(None, None, None)
                 model[fld] = saved
                 trail.append(f"exit {kind}" + (" by exception" if act["raise"] else ""))
                 probe_flags("after leaving " + kind)
